@@ -38,6 +38,23 @@ Theorem C18_caller_keys_survive : forall hold_of ops h k,
 Proof. exact run_keeps_keys. Qed.
 Print Assumptions C18_caller_keys_survive.
 
+(* option VALUES that are lists: optimization_options["external_safe_paths"].  The summary of the code at 003f186
+   (self.safe_lists = self.external_safe_paths; self.safe_lists += ...) keeps and extends the caller's list: frame and history
+   independence fail for it; the theorems above are about the summary with the list copied (list(self.external_safe_paths)),
+   and the aliasing summary touches nothing but that list *)
+Theorem C18_head_frame_refuted : forall c, old_ext_alias c = true -> exists h o, o_cls o = c /\ head_step h o <> h.
+Proof. exact head_frame_refuted. Qed.
+Print Assumptions C18_head_frame_refuted.
+Theorem C18_head_history_independent_refuted : exists ops h o, model_of (head_run ops h) o <> model_of h o.
+Proof. exact head_history_independent_refuted. Qed.
+Print Assumptions C18_head_history_independent_refuted.
+Theorem C18_head_only_the_list_is_touched : forall h o,
+  let h' := head_step h o in
+  h_graph h' = h_graph h /\ h_opts h' = h_opts h /\ h_sopts h' = h_sopts h /\ h_cons h' = h_cons h /\
+  h_ign h' = h_ign h /\ h_starts h' = h_starts h /\ h_ends h' = h_ends h /\ h_defaults h' = h_defaults h.
+Proof. exact head_step_only_ext. Qed.
+Print Assumptions C18_head_only_the_list_is_touched.
+
 (* repeated getter calls return equal results *)
 Theorem C18_idempotent_getters : forall m,
   let '(m1, r1) := get_solution m in let '(m2, r2) := get_solution m1 in let '(m3, r3) := get_solution m2 in
@@ -67,5 +84,9 @@ Example C18_nonvacuous :
   h_opts (old_step ex_heap (mk_op CkMinPathError true true false true)) =
     [KUser 0; KAllowEmpty; KSafePaths; KSafeSeq; KSafeZero; KSubAsSafe; KSafetyAsSub; KTrusted] /\
   h_opts (old_step ex_heap (mk_op CMinFlowDecompCycles true false false true)) = [KUser 0; KTrusted] /\
-  old_step ex_heap (mk_op CkFlowDecomp true false false true) = ex_heap.
+  old_step ex_heap (mk_op CkFlowDecomp true false false true) = ex_heap /\
+  step ex_heap (mk_op CkLeastAbsErrors true false true true) = ex_heap /\
+  h_ext (head_step ex_heap (mk_op CkLeastAbsErrors true false true true)) = [1] /\
+  head_step ex_heap (mk_op CkLeastAbsErrors true false false true) = ex_heap /\
+  head_step ex_heap (mk_op CMinPathCover true false true false) = ex_heap.
 Proof. vm_compute. repeat split; reflexivity. Qed.
